@@ -314,7 +314,8 @@ def monitors(props, start_snap, start_dump, oplist, leaf, serial_cache):
                                     else 'c06:two-successes-same-consumer-generation:%s' % ('null' if key[1] is None else 'int'),
                                     'requests %d and %d both succeeded carrying consumer_generation %s of %s' % (j, i, key[1], key[0])))
                     seen[key] = i
-    if 'C07' in props or 'C05' in props or 'C06' in props:
+    if any(p in props for p in ('C05', 'C06', 'C07', 'C08', 'C09')):
+        ser0 = 'c07:' if any(p in props for p in ('C05', 'C06', 'C07')) else '%s:race:' % sorted(props)[0].lower()
         succ = [i for i in range(n) if ok(sts[i])]
         final = core(leaf['dump'])
         match = False
@@ -349,16 +350,16 @@ def monitors(props, start_snap, start_dump, oplist, leaf, serial_cache):
         if not match:
             # classify
             d = leaf['dump']
-            pfx = 'c07:new-consumer-race:' if new_consumer_race(start_dump, oplist) else 'c07:'
+            pfx = ser0 + 'new-consumer-race:' if new_consumer_race(start_dump, oplist) else ser0
             holders = {x[1] for x in d['allocs']}
             if holders - set(d['consumers']):
                 sig = pfx + 'not-serializable:allocations-without-consumer'
             elif set(d['consumers']) - holders:
                 sig = pfx + 'not-serializable:consumer-without-allocations'
-            elif pfx != 'c07:':
+            elif pfx != ser0:
                 sig = pfx + 'not-serializable'
             else:
-                sig = 'c07:not-serializable:%s' % '+'.join(sorted(op['op'] for op in oplist))
+                sig = ser0 + 'not-serializable:%s' % '+'.join(sorted(op['op'] for op in oplist))
             out.append((sig, 'statuses %s: no serial order of the successful requests %s reproduces the final state with all of them succeeding'
                         % (sts, succ)))
     return out
@@ -379,7 +380,8 @@ def race_case(args):
         start_dump = _APP.dump()
         start_snap = _APP.snapshot()
         v = gen.View(start_dump)
-        oplist = pick_race(rng, g, v, profile)
+        oplist = pick_tree_race(rng, g, v, profile) if profile.get('picker') == 'tree' else pick_race(rng, g, v, profile)
+        with_model = profile.get('model', True) and all(op['op'] in MODEL_SCHED_OPS for op in oplist)
         out['pairs'].append('+'.join(op['op'] for op in oplist))
         serial_cache = {}
         for leaf in explore(start_snap, start_dump, oplist, max_leaves, rng):
@@ -390,7 +392,20 @@ def race_case(args):
             vio = []
             for sig, detail in monitors(props, start_snap, start_dump, oplist, leaf, serial_cache):
                 vio.append({'kind': 'monitor', 'signature': sig, 'detail': detail})
+            for sig, detail in final_state_monitors(props, start_dump, oplist, leaf):
+                vio.append({'kind': 'monitor', 'signature': sig, 'detail': detail})
             # model
+            if not with_model:
+                for x in vio:
+                    x['replay'] = {'type': 'schedule', 'module': 'harness.conc', 'start_dump': start_dump, 'ops': oplist,
+                                   'schedule': leaf['schedule'], 'props': list(props),
+                                   'observed_statuses': [r.status if r else None for r in leaf['responses']],
+                                   'observed': x['detail'],
+                                   'trace': [(i, m, sorted(set('%s.%s' % (s0[0], s0[1]) for s0 in st))) for (i, m, st) in leaf['trace']]}
+                    out['violations'].append(x)
+                if len(out['violations']) > 40:
+                    break
+                continue
             real_steps = [(i, classify(m, st)) for (i, m, st) in leaf['trace'] if m != 'end']
             real_steps = [(i, l) for (i, l) in real_steps if l != 'rcCache']
             for _, l in real_steps:
@@ -428,6 +443,116 @@ def race_case(args):
     except Exception:
         out['error'] = traceback.format_exc()
     return out
+
+
+# requests whose transaction programs exist in Model/Txn.lean (`prog`); provider create / update / delete, trait and
+# class requests are single `.other` steps there, so schedules containing them are judged by the monitors only
+MODEL_SCHED_OPS = ('inv_set', 'inv_add', 'inv_update', 'inv_delete', 'inv_delete_all', 'rp_traits_set', 'rp_traits_delete',
+                   'aggs_set', 'alloc_put', 'alloc_post', 'reshape', 'alloc_delete')
+
+
+def final_state_monitors(props, start_dump, oplist, leaf):
+    """C08 / C09 evaluated on the state a schedule ends in (independent of the model)"""
+    from harness import monitors as mon
+    out = []
+    d = leaf['dump']
+    kinds = '+'.join(sorted(op['op'] for op in oplist))
+    if 'C08' in props:
+        im = mon.inv_map(d)
+        for (rp, c, rc, used) in d['allocs']:
+            if rp not in d['rps']:
+                out.append(('c08:race:alloc-without-provider:%s' % kinds, str([rp, c, rc, used])))
+            elif (rp, rc) not in im:
+                out.append(('c08:race:alloc-without-inventory:%s' % kinds, str([rp, c, rc, used])))
+            if c not in d['consumers'] and not new_consumer_race(start_dump, oplist):
+                out.append(('c08:race:alloc-without-consumer:%s' % kinds, str([rp, c, rc, used])))
+        for r in d['invs']:
+            if r[0] not in d['rps'] or str(r[1]).startswith('?'):
+                out.append(('c08:race:dangling-inventory:%s' % kinds, str(r)))
+        for x in d['rp_traits'] + d['rp_aggs']:
+            if x[0] not in d['rps'] or str(x[1]).startswith('?'):
+                out.append(('c08:race:dangling-association:%s' % kinds, str(x)))
+    if 'C09' in props:
+        for e in mon.forest_errors(d['rps']):
+            out.append(('c09:race:forest:%s' % kinds, e))
+    return out
+
+
+def pick_tree_race(rng, g, v, profile):
+    """two requests racing on the provider tree / on entities in use: creation under a parent against a move or the
+    deletion of that parent, two moves that would form a loop together, deletion of a provider, inventory, class or
+    trait against a request that starts using it"""
+    rps = list(v.rps)
+    fresh = [u for u in gen.RPS if u not in v.rps] or ['%08d-0000-0000-0000-00000000ffff' % rng.randrange(10 ** 8)]
+
+    def create_under(p):
+        u = rng.choice(fresh)
+        return {'op': 'rp_create', 'mv': 39, 'uuid': u, 'name': 'n-' + u[:8] + '-x', 'parent': p}
+
+    def move(u, p, mv=39):
+        return {'op': 'rp_update', 'mv': mv, 'uuid': u, 'name': v.rps[u]['name'], 'has_parent': True, 'parent': p}
+
+    def delete(u):
+        return {'op': 'rp_delete', 'mv': 39, 'uuid': u}
+
+    def alloc_on(u):
+        keys = [k for k in v.invs if k[0] == u]
+        c = rng.choice(gen.CONSUMERS)
+        creq = g.consumer_req(v, 39, c, empty_ok=False)
+        if keys:
+            k = rng.choice(keys)
+            creq['allocs'] = [[k[0], k[1], max(1, g.amount_for(v, k, c))]]
+        return {'op': 'alloc_put', 'mv': 39, 'c': creq}
+    if len(rps) < 2:
+        return [create_under(rps[0] if rps else None), create_under(rps[0] if rps else None)]
+    a, b = rng.sample(rps, 2)
+    leafs = [u for u in rps if not any(r['parent'] == u for r in v.rps.values())]
+    free_leafs = [u for u in leafs if not any(k[0] == u for k in v.used)] or leafs or rps
+    t = rng.choice(free_leafs)
+    scen = rng.choice(profile.get('scenarios') or ['create-vs-move', 'create-vs-unparent', 'create-vs-delete', 'move-vs-move', 'move-vs-delete',
+                                                   'delete-vs-alloc', 'delete-vs-inv', 'delete-vs-traits', 'invdelete-vs-alloc',
+                                                   'rcdelete-vs-inv', 'traitdelete-vs-use'])
+    if scen == 'create-vs-move':
+        return [create_under(a), move(a, b, rng.choice([39, 39, 14]))]
+    if scen == 'create-vs-unparent':
+        kids = [u for u in rps if v.rps[u]['parent'] is not None] or [a]
+        k = rng.choice(kids)
+        return [create_under(k), move(k, None)]
+    if scen == 'create-vs-delete':
+        return [create_under(t), delete(t)]
+    if scen == 'move-vs-move':
+        return [move(a, b), move(b, a)] if rng.random() < 0.6 else [move(a, b), move(a, rng.choice(rps + [None]))]
+    if scen == 'move-vs-delete':
+        return [move(a, t), delete(t)] if rng.random() < 0.5 else [move(t, a), delete(t)]
+    if scen == 'delete-vs-alloc':
+        withinv = [u for u in free_leafs if any(k[0] == u for k in v.invs)] or [t]
+        u = rng.choice(withinv)
+        return [delete(u), alloc_on(u)]
+    if scen == 'delete-vs-inv':
+        op = g.g_inv_set(v)
+        op['uuid'], op['gen'], op['mv'] = t, v.rps[t]['gen'], 39
+        return [delete(t), op]
+    if scen == 'delete-vs-traits':
+        op = g.g_rp_traits_set(v) if rng.random() < 0.5 else g.g_aggs_set(v)
+        op['uuid'], op['gen'], op['mv'] = t, v.rps[t]['gen'], 39
+        return [delete(t), op]
+    if scen == 'invdelete-vs-alloc':
+        keys = [k for k in v.invs if not v.used.get(k)] or list(v.invs)
+        if not keys:
+            return [delete(t), alloc_on(t)]
+        k = rng.choice(keys)
+        other = alloc_on(k[0])
+        other['c']['allocs'] = [[k[0], k[1], max(1, g.amount_for(v, k, other['c']['uuid']))]]
+        first = {'op': 'inv_delete', 'mv': 39, 'uuid': k[0], 'rc': k[1]} if rng.random() < 0.6 else \
+            {'op': 'inv_delete_all', 'mv': 39, 'uuid': k[0]}
+        return [first, other]
+    if scen == 'rcdelete-vs-inv':
+        rc = rng.choice(gen.CUSTOM_RCS)
+        return [{'op': 'rc_delete', 'mv': 39, 'name': rc},
+                {'op': 'inv_add', 'mv': 39, 'uuid': a, 'inv': ops.inv(rc, 4)}]
+    tr = rng.choice(gen.CUSTOM_TRAITS)
+    return [{'op': 'trait_delete', 'mv': 39, 'name': tr},
+            {'op': 'rp_traits_set', 'mv': 39, 'uuid': a, 'gen': v.rps[a]['gen'], 'traits': [tr]}]
 
 
 def pick_race(rng, g, v, profile):
